@@ -26,7 +26,7 @@ for name in names:
         subprocess.run(['rm', '-rf', out])
         os.makedirs(out)
         t0 = time.time()
-        env = dict(os.environ, VERIF_OUT_DIR=out)
+        env = dict(os.environ, VERIF_OUT_DIR=out, VERIF_NO_SHRINK='1')
         p = subprocess.run(['tools/with_patch.sh', f'{d}/patch.diff', './check', chk, '--tier', 'quick'], capture_output=True, text=True, env=env)
         sigs = re.findall(r'signature=(\S+)', p.stdout)
         det.append({'check': chk, 'tier': 'quick', 'exit': p.returncode, 'violation_lines': p.stdout.count('VIOLATION property='),
